@@ -75,6 +75,11 @@ def sem(q, live):
     from vf import model
     if is_null(q):
         return set()
+    if isinstance(q, (query.Term, query.TermRange, query.terms.MultiTerm)) and not isinstance(q, query.NumericRange):
+        # byte-level terms (what NumericRange compiles / simplifies to) and terms of the numeric fields are outside the model
+        vals = [getattr(q, a, None) for a in ("text", "start", "end")]
+        if q.fieldname not in ("t", "u", "k", "id") or any(v is not None and not isinstance(v, str) for v in vals):
+            raise model.Undecided("byte-level term")
     if isinstance(q, query.Phrase) and not q.words:
         return set()      # a phrase without words matches nothing (Phrase.normalize() -> NullQuery)
     if isinstance(q, query.Variations):
@@ -221,8 +226,13 @@ class Gen(object):
         elif r < 0.83:
             q = self.termrange()
         elif r < 0.87:
-            q = query.FuzzyTerm("t", rng.choice(model.VOCAB + ["alfo", "brvo", "ecoh"]), maxdist=rng.randint(1, 2),
-                                prefixlength=rng.randint(0, 2))
+            # texts / distances on which plain and transposition-aware edit distance agree for the whole vocabulary
+            # (the disagreement between the two term expansion paths is C19's listed subject, not a rewrite)
+            while True:
+                text, md = rng.choice(model.VOCAB + ["alfo", "brvo", "ecoh", "golfz"]), rng.randint(1, 2)
+                if all((model.lev(w, text, False) <= md) == (model.lev(w, text, True) <= md) for w in model.VOCAB + EXTRA_WORDS):
+                    break
+            q = query.FuzzyTerm("t", text, maxdist=md, prefixlength=rng.randint(0, 2))
         elif r < 0.91:
             q = query.Variations("t", rng.choice(["alfa", "echo", "golf", "echoes", "golfing", "bravo"]))
         elif r < 0.95:
@@ -283,6 +293,8 @@ class Gen(object):
             out = [sub() for _ in range(n)]
             if out and rng.random() < 0.25:      # duplicate clause (de-duplication)
                 out.insert(rng.randrange(len(out) + 1), copy.deepcopy(rng.choice(out)))
+            if out and rng.random() < 0.25:      # near-duplicate: same clause but for one attribute (must survive de-duplication)
+                out.insert(rng.randrange(len(out) + 1), near_duplicate(rng, rng.choice(out)))
             if out and rng.random() < 0.15:      # same clause with another boost
                 c = rng.choice(out)
                 if not is_null(c):
@@ -330,6 +342,36 @@ class Gen(object):
         else:
             q = query.Or([self.leaf() for _ in range(rng.randint(8, 10))])
         return q
+
+
+def near_duplicate(rng, q):
+    """A copy of q that differs in exactly one attribute that changes (or may change) what it matches."""
+    from whoosh import query
+    c = copy.deepcopy(q)
+    if isinstance(c, (query.Phrase, query.Sequence, query.SpanNear, query.SpanNear2)):
+        if rng.random() < 0.6 or not hasattr(c, "ordered"):
+            c.slop = 1 if c.slop > 1 else 3
+        else:
+            c.ordered = not c.ordered
+    elif isinstance(c, query.FuzzyTerm):
+        if rng.random() < 0.5:
+            c.prefixlength = 0 if c.prefixlength else 2
+        else:
+            c.text = "alfo" if c.text != "alfo" else "brvo"
+    elif isinstance(c, (query.TermRange, query.NumericRange)):
+        if rng.random() < 0.5:
+            c.startexcl = not c.startexcl
+        else:
+            c.endexcl = not c.endexcl
+    elif isinstance(c, query.SpanFirst):
+        c.limit = 0 if c.limit else 2
+    elif isinstance(c, (query.Prefix, query.Wildcard, query.Regex)):
+        c.constantscore = not c.constantscore
+    elif isinstance(c, query.ConstantScoreQuery):
+        c.score = c.score + 1.0
+    elif isinstance(c, query.Term):
+        c.fieldname = "u" if c.fieldname == "t" else "t"
+    return c
 
 
 def walk(q):
@@ -595,10 +637,22 @@ class Case(object):
                 return None
         return r
 
+    @property
+    def model_only(self):
+        return ModelOnly(self.live)
+
     def witness(self, q, name, **kw):
         w = dict(self.wb, query=repr(q), rewrite=name)
         w.update(kw)
         return w
+
+
+class ModelOnly(object):
+    def __init__(self, live):
+        self.live = live
+
+    def sem(self, q):
+        return try_sem(q, self.live)
 
 
 def srt(keys):
@@ -719,7 +773,9 @@ def check_tree(case, rng, q, q2):
 
     def steps_of(tree, name, tpop, produced):
         """Local analysis of normalize() over `tree`; reports unexplained steps; returns the Analysis if it composes to `produced`."""
-        ok, an = ctx.guard("c15." + name, case.witness(tree, name + "-steps"), analyze, tree, case)
+        # population A: model only (steps it cannot decide are covered by the whole-tree engine comparison);
+        # population B: engine fallback, so that every deviating step can be attributed
+        ok, an = ctx.guard("c15." + name, case.witness(tree, name + "-steps"), analyze, tree, case if tpop == "B" else case.model_only)
         if not ok:
             return None
         ctx.count("c15.steps", an.steps)
@@ -794,9 +850,10 @@ def check_tree(case, rng, q, q2):
             ctx.count("c15.eqhash.copy_not_equal.%s" % type(q).__name__)
 
     # ---- operators
-    for opname, fn, mk in (("and_op", lambda: q & q2, lambda: query.And([q, q2])),
-                           ("or_op", lambda: q | q2, lambda: query.Or([q, q2])),
-                           ("sub_op", lambda: q - q2, lambda: query.And([q, query.Not(q2)]))):
+    ops = (("and_op", lambda: q & q2, lambda: query.And([q, q2])),
+           ("or_op", lambda: q | q2, lambda: query.Or([q, q2])),
+           ("sub_op", lambda: q - q2, lambda: query.And([q, query.Not(q2)])))
+    for opname, fn, mk in ([rng.choice(ops)] if ctx.quick else ops):
         tree = mk()
         ok, rq = ctx.guard("c15." + opname, case.witness(tree, opname), fn)
         if not ok:
